@@ -214,7 +214,7 @@ func (r *mergeRun) zeroSurvivors() bool { return len(r.want.Docs) == 0 }
 func init() {
 	register(&explore.Prop{
 		ID: "C02", Level: levelMC, Explorer: "E1 input-space enumerator",
-		Rule: "every list of <=k segments (each a MIX batch of <=2 docs over K kinds, incl. the empty batch) x every deletion bitmap (nil, empty, every subset) x configurations (input chunk modes, input form built/loaded/previously merged, output mode); merged with the real merger, loaded, observed and compared with (a) the reference model and (b) New(survivors); MERGE-LARGE (cardinalities / document counts around 1024); MERGE-ALIAS (the same segment object twice in one list, [S,S] and [S,T,S], every pair of bitmaps); MERGE(2,3,2) under 8 norm tables of unusual float32 bit patterns; MERGE-EXTREME (batches with extreme values: huge frequencies/location numbers, 70 000-byte terms and values, thousands of terms/locations/instances - alone, with a partner, twice); " +
+		Rule: "every list of <=k segments (each a MIX batch of <=2 docs over K kinds, incl. the empty batch) x every deletion bitmap (nil, empty, every subset) x configurations (input chunk modes, input form built/loaded/previously merged, output mode); merged with the real merger, loaded, observed and compared with (a) the reference model and (b) New(survivors); MERGE-LARGE (cardinalities / document counts around 1024); MERGE-ALIAS (the same segment object twice in one list, [S,S] and [S,T,S], every pair of bitmaps); MERGE(2,3,2) under 8 norm tables of unusual float32 bit patterns; MERGE-TERM (one (field, term) whose posting per document is one of {absent, f1, f1+loc, f2+loc, f300+2 locs}: every pair of segments of <=2 documents, inputs built or previously merged, with and without a deletion); MERGE-EXTREME (batches with extreme values: huge frequencies/location numbers, 70 000-byte terms and values, thousands of terms/locations/instances - alone, with a partner, twice); " +
 			"distinct = distinct (configuration, segment list, bitmaps); non-trivial = >=1 dropped doc, or two segments share a term, or field lists differ",
 		Assumptions: commonAssumptions, Budget: qBudget, Run: runC02,
 	})
@@ -290,6 +290,109 @@ func runC02(c *explore.Ctx) {
 	aliasMerges(c, check)
 	normMerges(c, check)
 	extremeMerges(c, check)
+	termMerges(c, check)
+}
+
+// termMerges: MERGE-TERM - one (field, term) whose posting in each document is one of {absent,
+// freq 1, freq 1 + location, freq 2 + location, freq 300 + 2 locations}: every pair of segments of
+// <= 2 such documents, inputs built or previously merged (a lone freq-1 posting without locations
+// then arrives 1-hit encoded), with and without a deletion: every combination of payload kinds
+// meeting in one merged postings list.
+func termMerges(c *explore.Ctx, check func(scope string, idx int64, r *mergeRun)) {
+	payload := func(k, i int) []model.Term {
+		switch k {
+		case 1:
+			return []model.Term{{T: "x", Freq: 1}}
+		case 2:
+			return []model.Term{{T: "x", Freq: 1, Locs: []model.Loc{{P: 1 + i, S: 125, E: 130}}}}
+		case 3:
+			return []model.Term{{T: "x", Freq: 2, Locs: []model.Loc{{P: 2 + i, S: 3, E: 4}}}}
+		case 4:
+			return []model.Term{gen.TermKind("x", gen.KF300L2, "")}
+		}
+		return nil
+	}
+	var segOpts [][]int
+	segOpts = append(segOpts, []int{})
+	for a := 0; a < 5; a++ {
+		segOpts = append(segOpts, []int{a})
+		for b := 0; b < 5; b++ {
+			segOpts = append(segOpts, []int{a, b})
+		}
+	}
+	mk := func(tag string, kinds []int) []model.Doc {
+		var b []model.Doc
+		for i, k := range kinds {
+			d := model.Doc{gen.IDField(tag, i)}
+			ts := append(payload(k, i), model.Term{T: "other", Freq: 1})
+			n := 0
+			for _, t := range ts {
+				n += t.Freq
+			}
+			d = append(d, model.Field{N: "a", Len: n, Terms: ts})
+			b = append(b, d)
+		}
+		return b
+	}
+	var idx int64
+	for form := 0; form <= 2; form += 2 {
+		scope := fmt.Sprintf("MERGE-TERM/form%d", form)
+		for _, k0 := range segOpts {
+			for _, k1 := range segOpts {
+				for drop := 0; drop < 2; drop++ {
+					my := idx
+					idx++
+					if drop == 1 && len(k0) == 0 {
+						continue
+					}
+					if !c.MineIdx(scope, my) || c.Expired() {
+						continue
+					}
+					c.Eval()
+					cfg := mergeCfg{Name: fmt.Sprintf("term-form%d", form), InModes: []uint32{1025}, Form: form, Out: 1025}
+					r := &mergeRun{cfg: cfg}
+					bad := false
+					for i, ks := range [][]int{k0, k1} {
+						batch := mk(fmt.Sprintf("s%d", i), ks)
+						seg, err := build(batch, 1025)
+						if err != nil {
+							c.Violate(scope, my, sigOf(c.Prop, "inputs", "error: "+err.Error()), err.Error(), fmt.Sprint(k0, k1))
+							bad = true
+							break
+						}
+						ls := model.Build(batch)
+						seg, ls, err = inputForm(seg, ls, form, 1025)
+						if err != nil {
+							c.Violate(scope, my, sigOf(c.Prop, "inputs", "error: "+err.Error()), err.Error(), fmt.Sprint(k0, k1))
+							bad = true
+							break
+						}
+						r.batches = append(r.batches, batch)
+						r.segs = append(r.segs, seg)
+						r.lsegs = append(r.lsegs, ls)
+						sp := gen.SegSpec{}
+						if i == 0 && drop == 1 {
+							r.drops = append(r.drops, bitmapOf(0))
+							r.dropSets = append(r.dropSets, map[uint64]bool{0: true})
+							sp.DropForm, sp.Drops = 1, []uint32{0}
+						} else {
+							r.drops = append(r.drops, nil)
+							r.dropSets = append(r.dropSets, nil)
+						}
+						r.specs = append(r.specs, sp)
+					}
+					if bad {
+						continue
+					}
+					r.cfg.Name = fmt.Sprintf("term-form%d payloads=%v|%v", form, k0, k1)
+					r.want, r.wantNums = model.Merge(r.lsegs, r.dropSets)
+					c.Nontrivial()
+					r.run()
+					check(scope, my, r)
+				}
+			}
+		}
+	}
 }
 
 // manualMerge builds a merge case from explicit batches.
